@@ -67,7 +67,7 @@ type Term struct {
 	Name   string // OVar, OUF
 	P1, P2 int    // OExtract hi,lo ; OZext/OSext extra bits
 	ID     int
-	CT     bool // ite-tree with constant leaves (or constant)
+	CT     bool  // ite-tree with constant leaves (or constant)
 	ivS    uint8 // 0 unknown, 1 ok, 2 none
 	ivLo   uint64
 	ivHi   uint64
